@@ -4,7 +4,10 @@
 id=$1; base=$2; prop=$3; shift 3
 wt=/tmp/seedrun/$id
 mkdir -p /tmp/seedrun /verif/target/seedruns/$id
-if [ ! -d $wt ]; then git -C /repo worktree add -q --detach $wt HEAD || exit 2; fi
+bcommit=$(python3 -c "import json;print(json.load(open('/verif/seeded/$id/meta.json')).get('base_commit','HEAD'))" 2>/dev/null || echo HEAD)
+# the scratch worktree is at the commit the seed was written against, plus the hooks/fixes that came later are NOT needed:
+# the harness sources live in /verif and are mounted by absolute path
+if [ ! -d $wt ]; then git -C /repo worktree add -q --detach $wt $bcommit || exit 2; fi
 git -C $wt checkout -q -- . ; git -C $wt apply /verif/seeded/$id/patch.diff || { echo "patch does not apply"; exit 2; }
 cd /verif
 VERIF_REPO=$wt VERIF_SLOT_BASE=$base VERIF_JOBS=2 VERIF_EVIDENCE_DIR=/verif/target/seedruns/$id VERIF_REPLAY_DIR=/verif/target/seedruns/$id ./check $prop "$@" > /verif/target/seedruns/$id/$prop.out 2>&1
